@@ -26,6 +26,10 @@ def build(work, variant):
     for rel, data in layout.items():
         lib.write_file(os.path.join(base, rel), data)
     os.link(os.path.join(base, "d1/a"), os.path.join(base, "d2/hl"))
+    if variant == 2:
+        # symbolic links to files, reported as links with -S: the scan resolves them (readlink, then stat of the target)
+        os.symlink("../d1/c", os.path.join(base, "d2/ln_c"))
+        os.symlink("../d2/s/g", os.path.join(base, "d1/ln_g"))
     return base
 
 
@@ -95,6 +99,12 @@ def one(t):
         removed = []
         for e in injected:
             p = e["p1"]
+            if e["call"] in ("stat", "lstat"):
+                # the stat that follows a readlink belongs to the LINK being resolved: it is the link that cannot be used
+                i_ = log.index(e)
+                prev = next((x for x in reversed(log[max(0, i_ - 4):i_]) if x.get("tid") == e.get("tid") and x["call"] == "readlink" and x["ret"] >= 0), None)
+                if prev and os.path.realpath(prev["p1"]) == os.path.realpath(p):
+                    p = prev["p1"]
             if e["call"] == "readdir":
                 delivered = {os.path.basename(x["p2"]) for x in log if x["call"] == "readdir" and x.get("p1") == p and x.get("p2") and x["ret"] == 0}
                 for n in os.listdir(p):
@@ -118,10 +128,10 @@ def one(t):
             for root, dirs, names in os.walk(base):
                 for n in names:
                     p = os.path.join(root, n)
-                    if os.path.islink(p) or any(p == x or p.startswith(x + "/") for x in lost):
+                    if (os.path.islink(p) and "-S" not in extra) or any(p == x or p.startswith(x + "/") for x in lost):
                         continue
                     scanned.append((p, 0))
-            gcfg = {"disk_kind": disk, "unique": "--unique" in extra}
+            gcfg = {"disk_kind": disk, "unique": "--unique" in extra, "symlinks": "-S" in extra}
             if "--rf-over" in extra:
                 gcfg["rf_over"] = int(extra[extra.index("--rf-over") + 1])
             res["stage_lines"], res["stage_problem"] = gtrace.build_run_from_paths(0, scanned, gcfg, gtrace.read_events(trace), unreadable)
@@ -231,7 +241,7 @@ def main(tier):
     lib.build_all()
     rng = random.Random(chk.seed + 15)
     cases = []
-    setups = [(0, "ssd", []), (1, "hdd", []), (0, None, ["--rf-over", "0"]), (1, "ssd", ["--unique"])]
+    setups = [(0, "ssd", []), (1, "hdd", []), (0, None, ["--rf-over", "0"]), (1, "ssd", ["--unique"]), (2, "ssd", ["-S"])]
     for variant, disk, extra in setups:
         pos, _ = calibrate(variant, disk, extra)
         singles = []
@@ -241,6 +251,10 @@ def main(tier):
                     if call in ("fiemap", "readdir") and e == "ENOENT":
                         continue            # not an error these calls report for a vanished entry
                     singles.append((call, rel, nth, e))
+        if variant == 2:
+            # only the calls that resolve the links (on the link itself, or on its target spelled through the link's directory): a fault
+            # on the target's own entry would leave the link usable, which `as if the entry were not there` cannot express by deletion
+            singles = [s_ for s_ in singles if "/ln_" in "/" + s_[1] or "/../" in s_[1]]
         if not thorough:
             rng.shuffle(singles)
             singles = singles[:110]
